@@ -26,7 +26,8 @@ class Fn:
     def __init__(self, path, ret=None, requires=(), ensures=(), loops=None, panics=None, valid='true',
                  closures=None, hints=(), attrs=(), rewrites=(), level='L0', r3_skip=(), inherent=False,
                  shape=None, pre_body='', decreases=None, name_as=None, generics=None, no_unwind=False,
-                 sig_sub=(), mut_params=(), float_casts=()):
+                 sig_sub=(), mut_params=(), float_casts=(), companion=None):
+        self.companion = companion
         self.float_casts = tuple(float_casts)
         self.path = path
         self.ret = ret
@@ -60,7 +61,8 @@ class Fn:
 
 class Unit:
     def __init__(self, name, prop, prove, use=(), types=(), spec='', preludes=('fax_l0', 'stdspec'), level='L0',
-                 broadcast=('l0',), consts=(), extra_modules='', notes='', rlimit=30, raw_items=()):
+                 broadcast=('l0',), consts=(), extra_modules='', notes='', rlimit=30, raw_items=(), type_spec=''):
+        self.type_spec = type_spec
         self.name = name
         self.prop = prop
         self.prove = list(prove)      # [Fn]
@@ -391,7 +393,19 @@ class Gen:
         parts.append('use vstd::prelude::*;')
         for pre in unit.preludes:
             parts.append(open(os.path.join(HERE, 'prelude', pre + '.rs')).read())
+        parts.append('pub mod types {')
+        parts.append('use vstd::prelude::*;')
+        for pre in unit.preludes:
+            parts.append('use crate::%s::*;' % pre.split('_')[0])
+        parts.append('verus! {')
+        for tpath in unit.types:
+            parts.append('//@item %s' % tpath)
+            parts.append(self.item_text(tpath))
+        parts.append(unit.type_spec)
+        parts.append('} // verus!')
+        parts.append('} // mod types')
         parts.append('pub mod unit {')
+        parts.append('use crate::types::*;')
         parts.append('use vstd::prelude::*;')
         parts.append('use vstd::std_specs::ops::*;')
         parts.append('use vstd::std_specs::cmp::*;')
@@ -400,11 +414,11 @@ class Gen:
         for pre in unit.preludes:
             parts.append('use crate::%s::*;' % pre.split('_')[0])
         parts.append('verus! {')
-        if unit.broadcast:
-            parts.append('broadcast use {%s};' % ', '.join(unit.broadcast))
-        for tpath in unit.types:
-            parts.append('//@item %s' % tpath)
-            parts.append(self.item_text(tpath))
+        bc = list(unit.broadcast)
+        if 'ax_vector_refl' in unit.type_spec:
+            bc.append('ax_vector_refl')
+        if bc:
+            parts.append('broadcast use {%s};' % ', '.join(bc))
         for raw in unit.raw_items:
             parts.append(raw)
         parts.append('// ---- specification text (hand-written: spec fns and lemmas, no executable code) ----')
@@ -437,6 +451,9 @@ class Gen:
                 parts.append('}')
                 if is_trait:
                     comp = r13_companion(h)
+                    fobj = [f for f in unit.use + unit.prove if f.path == key[1]][0]
+                    if fobj.companion:
+                        comp = fobj.companion
                     if comp:
                         parts.append(comp)
                         self.log.add('R13', header, header, comp.split('{')[0])
